@@ -276,8 +276,9 @@ const SLACK_BYTES: usize = 4096;
 // $len = total bytes, $w = width of the size prefix (concrete, so that the number of bytes behind it is a constant)
 macro_rules! announce_too_much {
     ($len:expr, $w:expr, $t:ty, $elem_size:expr) => {{
-        let buf: [u8; $len] = kani::any();
-        kani::assume(width_of(buf[0]) == $w);
+        let mut buf: [u8; $len] = kani::any();
+        // the width code is assigned, not assumed, so that symbolic execution follows one size form only
+        buf[0] = (buf[0] & 0xFC) | (match $w { 1 => 0, 2 => 1, 4 => 2, _ => 3 });
         let n = match ref_size(&buf, $len) {
             Some((_, n)) => n,
             None => 0,
@@ -358,6 +359,69 @@ fn k11_announce_vec_u8_6() {
 #[kani::stub(alloc::vec::Vec::try_reserve_exact, mon_reserve_limit_0)]
 fn k11_announce_vec_u16_8() {
     announce_too_much!(8, 8, Vec<u16>, 2)
+}
+
+//@ prop: C11
+//@ family: K11-announce
+//@ tier: quick
+//@ functions: <BTreeMap<u8,u8> as DecodeFrom>::decode_from (entry loop; any staging allocation sized from the announced count)
+//@ inst: Decoder<SliceInputSource>; K = V = u8
+//@ inputs: the 4-byte strings [0xFE, b1, b2, b3] for all bytes b1..b3: a 4-byte size form announcing 63 + 64*m entries (m any 24-bit value, up to 2^30-1) with nothing behind it; the first byte is concrete because BTreeMap code behind a symbolic size form exhausts 12 GB
+//@ oracle: result is Err; largest reservation requested through Vec::try_reserve_exact (monitoring stub; counting allocator in the native replay) <= (bytes remaining + 4096) entries
+//@ stubs: Vec::try_reserve_exact -> monitoring stub
+//@ bound: unwind 2 (the first iteration of the entry loop must fail)
+//@ timeout: 900
+#[kani::proof]
+#[kani::unwind(2)]
+#[kani::stub(alloc::vec::Vec::try_reserve_exact, mon_reserve_limit_0)]
+fn k11_announce_btree_4() {
+    let mut buf: [u8; 4] = kani::any();
+    buf[0] = 0xFE;
+    let n = 63u64 + 64 * ((buf[1] as u64) | ((buf[2] as u64) << 8) | ((buf[3] as u64) << 16));
+    monitor_reset();
+    let mut dec: Decoder<SliceInputSource> = Decoder::from(&buf[..]);
+    let r = dec.decode::<alloc::collections::BTreeMap<u8, u8>>();
+    let req = monitor_largest_request_bytes();
+    kani::cover!(n > 1_000_000, "announced size above 10^6 reachable");
+    kani::cover!(n == 63, "smallest announced size reachable");
+    check!(r.is_err(), "a collection announcing more elements than bytes remain never decodes");
+    check!(req <= SLACK_BYTES * 2, "memory asked for is governed by the bytes present, not by the announced size");
+    core::mem::forget(r);
+}
+
+fn stub_random_state() -> std::hash::RandomState {
+    unsafe { core::mem::transmute::<(u64, u64), std::hash::RandomState>((0, 0)) }
+}
+/// Monitoring stub for HashMap::try_reserve: records the request (16 bytes per entry as a stand-in for the table's
+/// per-entry cost) and reserves nothing; insertions grow the real table as they come.
+fn mon_hashmap_try_reserve<K, V, S, A: core::alloc::Allocator>(_m: &mut std::collections::HashMap<K, V, S, A>, additional: usize) -> core::result::Result<(), TryReserveError> {
+    let bytes = additional.saturating_mul(16);
+    if bytes <= isize::MAX as usize {
+        unsafe {
+            if bytes > REQUESTED_BYTES_MAX {
+                REQUESTED_BYTES_MAX = bytes;
+            }
+        }
+    }
+    Ok(())
+}
+
+//@ prop: C11
+//@ family: K11-announce
+//@ tier: quick
+//@ functions: <HashMap<u8,u8> as DecodeFrom>::decode_from (reservation from the announced count)
+//@ inst: Decoder<SliceInputSource>; K = V = u8, S = RandomState
+//@ inputs: every 4-byte string that is a 4-byte size form announcing >= 1 entry (up to 2^30-1) with nothing behind it
+//@ oracle: result is Err; entries requested through HashMap::try_reserve (monitoring stub; counting allocator in the native replay) <= bytes remaining + 4096
+//@ stubs: HashMap::try_reserve -> monitoring stub (records, reserves nothing); std::hash::RandomState::new -> fixed keys (getrandom syscall)
+//@ bound: unwind 4
+//@ timeout: 900
+#[kani::proof]
+#[kani::unwind(4)]
+#[kani::stub(std::collections::HashMap::try_reserve, mon_hashmap_try_reserve)]
+#[kani::stub(std::hash::RandomState::new, stub_random_state)]
+fn k11_announce_hashmap_4() {
+    announce_too_much!(4, 4, std::collections::HashMap<u8, u8>, 16)
 }
 
 // ---- sequences: every byte string --------------------------------------------------------------------------
